@@ -5,6 +5,7 @@ import (
 	"go/token"
 	"os"
 	"path/filepath"
+	"pgregory.net/rapid"
 	"strings"
 	"testing"
 	"unicode"
@@ -235,4 +236,59 @@ func TestC08_Source(t *testing.T) {
 		}
 		judge(t, "c08.source", c08SourceCheck, c)
 	}
+}
+
+// c08.shared: words that two lists share (100 between English and French at different indices,
+// 1275 between the two Chinese lists, ...) must map back to the index of the language asked for,
+// whatever language the same sentence was validated under just before.
+type sharedCase struct {
+	A       string `json:"valid_in"`
+	B       string `json:"shares_words_with"`
+	Indices []int  `json:"indices"` // in A's list; every word also occurs in B's list
+}
+
+var c08SharedCheck = register("C08", "c08.shared", func(c *sharedCase) error {
+	a, b := mustLang(c.A), mustLang(c.B)
+	if !ref.IndicesValid(c.Indices) {
+		harnessError("c08.shared: sentence is not valid in %s", a)
+	}
+	s := strings.Join(ref.Words(a, c.Indices), " ")
+	idxB, ok := ref.TokensIndices(b, strings.Split(s, " "))
+	if !ok {
+		harnessError("c08.shared: a word is not in %s's list", b)
+	}
+	validB := ref.IndicesValid(idxB)
+	for step, l := range []ref.Lang{b, a, b, a} {
+		err, p := implCheck(s, implLang[l])
+		want := l == a || validB
+		sig := fmt.Sprintf("C08 shared lang=%s with=%s", a, b)
+		if p != nil {
+			return failf(sig+" panic", "CheckMnemonic(%q, %s) panicked: %v", s, l, p)
+		}
+		if (err == nil) != want {
+			return failf(sig, "step %d: CheckMnemonic(%q, %s) = %v; every word is in both the %s and the %s list, read with %s indices the sentence is valid=%v", step, s, l, err, a, b, l, want)
+		}
+	}
+	return nil
+})
+
+func TestC08_Shared(t *testing.T) {
+	cov.Rule(c08Rule + " || sentences valid in one language built only from words another list shares, validated alternately under both languages")
+	k := 0
+	rapidCheck(t, func(rt *rapid.T) {
+		pairs := gen.SharedPairs()
+		pr := pairs[rapid.IntRange(0, len(pairs)-1).Draw(rt, "pair")]
+		idx := gen.SharedWordSentence(pr[0], pr[1]).Draw(rt, "sentence")
+		if idx == nil {
+			rt.Skip("no all-shared sentence found for this draw")
+		}
+		c := &sharedCase{A: pr[0].Name(), B: pr[1].Name(), Indices: idx}
+		cov.Eval(1)
+		cov.Class("shared " + c.A + "/" + c.B)
+		cov.NonTrivial("c08.shared", []byte(c.A+c.B), []byte(fmt.Sprint(idx)))
+		if k++; k%97 == 1 {
+			cov.Sample("c08.shared", c)
+		}
+		judge(rt, "c08.shared", c08SharedCheck, c)
+	})
 }
